@@ -1089,18 +1089,34 @@ class Generator:
                          "conns": {n: [c for m, c in tables if m == n] for n, _ in tables}})
         for n in self.cfg["ns"]:
             self.cfg["groups"].setdefault(n, [Lt.random_group(r, n)])
-        visited = []
+        loaded = []          # in load order
         todo = list(tables)
+        last_touch = None
+        plan = []
         for _ in range(r.randint(25, 45)):
             x = r.random()
-            if todo and (not visited or x < 0.5):
+            if todo and (not loaded or x < 0.35):
                 t = todo.pop(0)
+                plan.append(t)
+                if t not in loaded:
+                    loaded.append(t)
+                # right after a load: go back to one of the OLDEST loaded tables, or to what was used just before
+                y = r.random()
+                if y < 0.4 and len(loaded) > 1:
+                    plan.append(r.choice(loaded[:3]))
+                elif y < 0.7 and last_touch is not None:
+                    plan.append(last_touch)
+                last_touch = plan[-1]
+                continue
+            if x < 0.6:
+                t = r.choice(loaded[:3])            # oldest loaded
             elif x < 0.8:
-                t = r.choice(visited[-3:])          # recently used
+                t = r.choice(loaded[-3:])           # most recently loaded
             else:
-                t = r.choice(visited)               # possibly long ago
-            if t not in visited:
-                visited.append(t)
+                t = r.choice(loaded)
+            plan.append(t)
+            last_touch = t
+        for t in plan:
             key = f"{r.choice(kinds)}{t[0]}-{t[1]}"
             self.queue.append(lambda ex, key=key: self.gen_sibling(ex, key))
 
